@@ -9,6 +9,8 @@ Section SortPerm.
   Context {A K: Type} (ltb: K -> K -> bool) (key: A -> K).
   Hypothesis ltb_irrefl: forall k, ltb k k = false.
   Hypothesis ltb_trans: forall a b c, ltb a b = true -> ltb b c = true -> ltb a c = true.
+  (* keys that are not ordered either way behave alike (a strict weak order) *)
+  Hypothesis ltb_negtrans: forall a b c, ltb a c = true -> ltb a b = true \/ ltb b c = true.
 
   Definition le_key (x y: A) : Prop := ltb (key y) (key x) = false.
   (* members with incomparable keys are the same member *)
@@ -25,13 +27,13 @@ Section SortPerm.
   Proof.
     induction l as [|z l IH]; cbn [Enc.insert_by].
     - cbn. intuition.
-    - destruct (ltb (key x) (key z)); cbn [In]; [intuition|]. rewrite IH. intuition.
+    - destruct (ltb (key z) (key x)); cbn [In]; [rewrite IH|]; intuition.
   Qed.
 
   Lemma insert_by_perm x l : Permutation (x :: l) (Enc.insert_by ltb key x l).
   Proof.
     induction l as [|z l IH]; cbn [Enc.insert_by]; [apply Permutation_refl|].
-    destruct (ltb (key x) (key z)); [apply Permutation_refl|].
+    destruct (ltb (key z) (key x)); [|apply Permutation_refl].
     eapply perm_trans; [apply perm_swap|]. apply perm_skip. exact IH.
   Qed.
 
@@ -46,14 +48,13 @@ Section SortPerm.
   Proof.
     induction 1 as [|z l Hs IH Hz]; cbn [Enc.insert_by].
     - constructor; constructor.
-    - destruct (ltb (key x) (key z)) eqn:E.
-      + constructor; [constructor; assumption|]. constructor.
-        * unfold le_key. apply ltb_asym. exact E.
-        * rewrite Forall_forall in *. intros w Hw. specialize (Hz w Hw). unfold le_key in *.
-          destruct (ltb (key w) (key x)) eqn:E2; [|reflexivity].
-          rewrite (ltb_trans _ _ _ E2 E) in Hz. discriminate.
+    - destruct (ltb (key z) (key x)) eqn:E.
       + constructor; [exact IH|]. rewrite Forall_forall in *. intros w Hw.
-        apply insert_by_in in Hw as [->|Hw]; [exact E|apply Hz; exact Hw].
+        apply insert_by_in in Hw as [->|Hw]; [unfold le_key; apply ltb_asym; exact E|apply Hz; exact Hw].
+      + constructor; [constructor; assumption|]. constructor; [exact E|].
+        rewrite Forall_forall in *. intros w Hw. specialize (Hz w Hw). unfold le_key in *.
+        destruct (ltb (key w) (key x)) eqn:E2; [|reflexivity].
+        destruct (ltb_negtrans _ (key z) _ E2) as [C|C]; congruence.
   Qed.
 
   Lemma sort_by_sorted l : StronglySorted le_key (Enc.sort_by ltb key l).
@@ -116,6 +117,14 @@ Proof.
   rewrite N.eqb_refl in H1, H2. cbn in H1, H2. f_equal. apply IH; auto.
 Qed.
 
+Lemma bytes_ltb_negtrans a b c : bytes_ltb a c = true -> bytes_ltb a b = true \/ bytes_ltb b c = true.
+Proof.
+  intros H. destruct (bytes_ltb a b) eqn:E1; [left; reflexivity|]. right.
+  destruct (bytes_ltb b a) eqn:E2.
+  - eapply bytes_ltb_trans; eauto.
+  - rewrite <- (bytes_ltb_tricho a b E1 E2). exact H.
+Qed.
+
 Lemma max_len_perm l1 l2 : Permutation l1 l2 -> max_len l1 = max_len l2.
 Proof. unfold max_len. induction 1; cbn [fold_right] in *; try lia; congruence. Qed.
 
@@ -130,7 +139,7 @@ Proof.
     + apply Permutation_length in Hp. discriminate.
     + fold (max_len (a :: b :: l1)). fold (max_len (a2 :: b2 :: l2)).
       rewrite <- (max_len_perm _ _ Hp).
-      apply sort_by_perm; [exact bytes_ltb_irrefl|exact bytes_ltb_trans|exact Hp|].
+      apply sort_by_perm; [exact bytes_ltb_irrefl|exact bytes_ltb_trans|exact bytes_ltb_negtrans|exact Hp|].
       intros x y Hx Hy L1 L2. apply Hd; auto. unfold le_key in *. apply bytes_ltb_tricho; assumption.
 Qed.
 
@@ -185,10 +194,39 @@ Proof.
     rewrite (tag_eqb_trans _ _ _ E1 E2). cbn. eapply IH; eauto.
 Qed.
 
+Lemma tag_tricho a b : tag_ltb a b = true \/ tag_eqb a b = true \/ tag_ltb b a = true.
+Proof.
+  unfold tag_ltb, tag_eqb. rewrite cls_eqb_bits.
+  destruct (N.ltb_spec (cls_bits (tcls a)) (cls_bits (tcls b))); [left; reflexivity|].
+  destruct (N.ltb_spec (cls_bits (tcls b)) (cls_bits (tcls a))); [right; right; reflexivity|].
+  assert (E: cls_bits (tcls a) = cls_bits (tcls b)) by lia. rewrite E, !N.eqb_refl. cbn.
+  destruct (N.ltb_spec (tnum a) (tnum b)); [left; reflexivity|].
+  destruct (N.ltb_spec (tnum b) (tnum a)); [right; right; reflexivity|].
+  right; left. apply N.eqb_eq. lia.
+Qed.
+Lemma tag_eqb_sym a b : tag_eqb a b = true -> tag_eqb b a = true.
+Proof. intros H. tagarith. Qed.
+
+Lemma tagset_ltb_negtrans : forall a b c, tagset_ltb a c = true -> tagset_ltb a b = true \/ tagset_ltb b c = true.
+Proof.
+  induction a as [|x a IH]; intros [|y b] [|z c]; cbn; try discriminate; auto.
+  intros H. apply orb_prop in H.
+  destruct (tag_tricho x y) as [L|[E|G]].
+  - left. rewrite L. reflexivity.
+  - destruct H as [H|H].
+    + right. rewrite (tag_ltb_eqb_l _ _ _ (tag_eqb_sym _ _ E) H). reflexivity.
+    + apply andb_prop in H as [Exz H]. destruct (IH b c H) as [Q|Q].
+      * left. rewrite E, Q. apply orb_true_r.
+      * right. rewrite (tag_eqb_trans _ _ _ (tag_eqb_sym _ _ E) Exz), Q. apply orb_true_r.
+  - right. destruct H as [H|H].
+    + rewrite (tag_ltb_trans _ _ _ G H). reflexivity.
+    + apply andb_prop in H as [Exz H]. rewrite (tag_ltb_eqb_r _ _ _ G Exz). reflexivity.
+Qed.
+
 Theorem sort_set_perm (p1 p2: list (tagset * bytes)) : Permutation p1 p2 -> tags_distinct p1 ->
   Enc.sort_by tagset_ltb fst p1 = Enc.sort_by tagset_ltb fst p2.
 Proof.
-  intros Hp Hd. apply sort_by_perm; [exact tagset_ltb_irrefl|exact tagset_ltb_trans|exact Hp|].
+  intros Hp Hd. apply sort_by_perm; [exact tagset_ltb_irrefl|exact tagset_ltb_trans|exact tagset_ltb_negtrans|exact Hp|].
   intros x y Hx Hy L1 L2. apply Hd; assumption.
 Qed.
 
